@@ -206,6 +206,8 @@ class Builder:
 
         header = [header_comments,
                   BLANK_LINE,
+                  '#pragma once',
+                  BLANK_LINE,
                   cpp_gen.SystemIncludes(cpp.facilities.system_includes),
                   cpp_gen.ProjectIncludes(project_includes_list),
                   BLANK_LINE]
